@@ -65,6 +65,26 @@ func init() {
 				}
 			}
 		}
+		// restart while the old session is busy reporting a time-out
+		for _, ver := range []string{"R16", "R201"} {
+			for k := 0; k < reps; k++ {
+				rep.Evaluations++
+				if sig, what := c16RestartBusyPump(ver); sig != "" && sig != "harness" {
+					dup := false
+					for _, v := range rep.Violations {
+						if v.Sig == sig {
+							dup = true
+						}
+					}
+					if !dup {
+						rep.Violations = append(rep.Violations, Violation{Property: "C16", Sig: sig, What: what,
+							Replay: map[string]interface{}{"steps": []string{"ocppj.Client on a fake websocket client, timeout 30 ms", "SendRequest r1, never answered: the message pump reports the time-out, the cancel callback is held at a gate", "Stop", "Start (in a goroutine)", "gate released", "Start must return; a new request is written"}}})
+					}
+				} else if sig == "" {
+					rep.Distinct++
+				}
+			}
+		}
 		// Stop releases every caller blocked in a synchronous request (not just one)
 		for _, ver := range []string{"R16", "R201"} {
 			for k := 0; k < reps; k++ {
@@ -197,6 +217,67 @@ func c16StopVsSend(ver string, restart bool) (sig, what string) {
 			return "restart/send-rejected:" + ver, fmt.Sprintf("%s: a request sent after Stop + Start (racing senders) was rejected: %v", ver, err)
 		}
 		e.stop()
+	}
+	return "", ""
+}
+
+// c16RestartBusyPump: the dispatcher is stopped and started again while its message pump is inside the application's
+// cancel callback (a request timed out; the callback is held at a gate): Start may wait for that pump, but once the
+// callback has returned Start returns and the endpoint works
+func c16RestartBusyPump(ver string) (sig, what string) {
+	fc := &fakeClient{}
+	d := ocppj.NewDefaultClientDispatcher(ocppj.NewFIFOClientQueue(0))
+	d.SetTimeout(30 * time.Millisecond)
+	c := ocppj.NewClient("cp1", fc, d, nil, core.Profile)
+	gate := make(chan struct{})
+	entered := make(chan struct{}, 1)
+	c.SetRequestHandler(func(r ocpp.Request, id, action string) {})
+	c.SetResponseHandler(func(r ocpp.Response, id string) {})
+	c.SetErrorHandler(func(e *ocpp.Error, det interface{}) {})
+	c.SetOnRequestCanceled(func(id string, r ocpp.Request, e *ocpp.Error) {
+		select {
+		case entered <- struct{}{}:
+			<-gate // the message pump is inside this callback
+		default:
+		}
+	})
+	if err := c.Start("ws://fake"); err != nil {
+		return "harness", ""
+	}
+	if err := c.SendRequest(core.NewHeartbeatRequest()); err != nil {
+		return "harness", ""
+	}
+	select {
+	case <-entered:
+	case <-time.After(2 * time.Second):
+		return "harness", ""
+	}
+	stopped := make(chan struct{})
+	go func() { c.Stop(); close(stopped) }()
+	select {
+	case <-stopped:
+	case <-time.After(2 * time.Second):
+		close(gate)
+		return "stop/blocked-by-callback", "ocppj.Client.Stop did not return while the message pump was inside the application's cancel callback"
+	}
+	started := make(chan struct{})
+	go func() { _ = c.Start("ws://fake"); close(started) }()
+	time.Sleep(20 * time.Millisecond)
+	close(gate)
+	select {
+	case <-started:
+	case <-time.After(3 * time.Second):
+		return "restart/start-wedged", "Start after Stop never returned although the cancel callback that kept the message pump of the stopped session busy has returned"
+	}
+	fc.takeWrites()
+	if err := c.SendRequest(core.NewHeartbeatRequest()); err != nil {
+		c.Stop()
+		return "restart/send-rejected:ocppj", fmt.Sprintf("a request sent after Stop + Start was rejected: %v", err)
+	}
+	ok := waitCond(time.Second, func() bool { return len(fc.takeWrites()) > 0 })
+	c.Stop()
+	if !ok {
+		return "restart/not-written:ocppj", "a request accepted after Stop + Start was never written"
 	}
 	return "", ""
 }
